@@ -228,9 +228,9 @@ func (n *native) raceConfirm(pkg, file, key string, runs int) (bool, string) {
 		fs = append(fs, strings.Split(side, ">")...)
 	}
 	nat := func(f string) string {
-		// engine closure names f$2 are f.func2 natively
+		// engine closure names f$2 are f.func2 natively, nested ones f$2$1 are f.func2.1
 		if i := strings.Index(f, "$"); i >= 0 {
-			return f[:i] + ".func" + f[i+1:]
+			return f[:i] + ".func" + strings.ReplaceAll(f[i+1:], "$", ".")
 		}
 		return f
 	}
